@@ -68,6 +68,42 @@ class NpShim:
         USED.add("np.ones")
         return _obj_fill(shape, 1)
 
+    def empty(self, shape, dtype=None, **k):
+        if dtype is not None and dtype not in (float, np.float64):
+            return np.empty(shape, dtype=dtype, **k)
+        USED.add("np.empty")
+        return _obj_fill(shape, 0)
+
+    def empty_like(self, other, dtype=None, **k):
+        if dtype is None and isinstance(other, np.ndarray) and other.dtype != object:
+            return np.empty_like(other, **k)
+        if dtype is not None and dtype not in (float, np.float64, object):
+            return np.empty_like(other, dtype=dtype, **k)
+        USED.add("np.empty_like")
+        return _obj_fill(np.shape(other), 0)
+
+    def _maybe_object(self, fn, obj, dtype, k):
+        """np.array / asarray(..., dtype=float) of something holding symbols keeps them (object dtype)"""
+        if dtype in (float, np.float64):
+            probe = np.array(obj, dtype=object)
+            if _has_sym(probe):
+                USED.add(f"np.{fn}(dtype=float)->object")
+                return probe.view(SymArr)
+        r = getattr(np, fn)(obj, dtype=dtype, **k) if dtype is not None else getattr(np, fn)(obj, **k)
+        return _rewrap(r)
+
+    def array(self, obj, dtype=None, **k):
+        return self._maybe_object("array", obj, dtype, k)
+
+    def asarray(self, obj, dtype=None, **k):
+        return self._maybe_object("asarray", obj, dtype, k)
+
+    def ascontiguousarray(self, obj, dtype=None, **k):
+        return self._maybe_object("ascontiguousarray", obj, dtype, k)
+
+    def asfortranarray(self, obj, dtype=None, **k):
+        return self._maybe_object("asfortranarray", obj, dtype, k)
+
     def full(self, shape, fill_value, dtype=None, **k):
         if dtype is not None and dtype not in (float, np.float64, object):
             return np.full(shape, fill_value, dtype=dtype, **k)
